@@ -116,3 +116,26 @@ Example C05_x_nonvacuous :
   /\ fnc 0%nat 0%nat (snd (ex_xrun05 (repeat 0%nat 12))) = 1%nat /\ g_pc (fst (ex_xrun05 (repeat 0%nat 12))) 0%nat = PIdle.
 Proof. vm_compute. repeat split; reflexivity. Qed.
 Print Assumptions C05_x_nonvacuous.
+
+(* ---------------------------------------------------------------------------
+   The static tie to the text of the cache layer.  gen/SrcFacts.v is produced on
+   every run by a translator (harness/srcfacts/skeleton.go) from xsync_map.go and
+   xsync_mapof.go: per public method, how often a syntactic path can perform each
+   kind of primitive outside a closure run by the map, and how often such a closure
+   can invoke a user function.  proofs/Skel.v ties the model programs to it in both
+   directions; a change of the call structure of a method breaks these statements. *)
+From CacheV.proofs Require SkelDefs Skel.
+From CacheV.gen Require SrcFacts.
+From Coq Require String.
+
+(* the source's closures invoke a user function at most once, and only GetOrCompute / Compute have one;
+   SkelDefs.within (C02_model_within_source) carries the same bound for the model's closures *)
+Theorem C05_source_fn_once_per_closure :
+  Skel.fn_budget_ok SrcFacts.budgets_map = true /\ Skel.fn_budget_ok SrcFacts.budgets_mapof = true.
+Proof. exact Skel.fn_once_per_closure. Qed.
+Print Assumptions C05_source_fn_once_per_closure.
+
+Theorem C05_get_or_create_is_one_map_call :
+  Skel.single_compute SrcFacts.budgets_map = true /\ Skel.single_compute SrcFacts.budgets_mapof = true.
+Proof. exact Skel.rmw_single_compute. Qed.
+Print Assumptions C05_get_or_create_is_one_map_call.
